@@ -499,13 +499,23 @@ pub struct RefPoint {
 }
 
 fn ref_range(limits: Option<(Option<Val>, Option<Val>)>, proto: &[Rec], name: &str) -> Option<(f64, f64)> {
-    // limits when both are present and of one numeric kind (double, single or integer), else the type's range
+    // the limits when both are given (as real values: a scaled integer limit is a raw value of the attribute's
+    // data type), else the range of the attribute's data type
     if let Some((Some(a), Some(b))) = limits {
-        match (a, b) {
-            (Val::D(a), Val::D(b)) => return Some((f64::from_bits(a), f64::from_bits(b))),
-            (Val::F(a), Val::F(b)) => return Some((f32::from_bits(a) as f64, f32::from_bits(b) as f64)),
-            (Val::I(a), Val::I(b)) => return Some((a as f64, b as f64)),
-            _ => {}
+        let dt = proto.iter().find(|r| r.name.is(name)).map(|r| r.dt.clone());
+        let real = |v: Val| -> Option<f64> {
+            match v {
+                Val::D(x) => Some(f64::from_bits(x)),
+                Val::F(x) => Some(f32::from_bits(x) as f64),
+                Val::I(x) => Some(x as f64),
+                Val::S(x) => match &dt {
+                    Some(DT::S(_, _, s, o)) => Some(x as f64 * f64::from_bits(*s) + f64::from_bits(*o)),
+                    _ => None,
+                },
+            }
+        };
+        if let (Some(a), Some(b)) = (real(a), real(b)) {
+            return Some((a, b));
         }
     }
     let r = proto.iter().find(|r| r.name.is(name))?;
